@@ -57,6 +57,10 @@ def run(repo, rep, tier):
               construct="table-entry-glued", detail="; ".join(
                   "%s:%d %s" % (g[0].relpath, g[1], g[2])
                   for g in glued_[:3]) or "%d word tables" % nt_)
+    # one namespace map per implicitly closed start tag (C03 owns the count)
+    from . import c03 as _c03
+    L.borrow(repo, rep, "R18.3", "C03", _c03.parser_details,
+             ("unclosed-counts-one",))
     L.state_rule(repo, rep)
 
 
